@@ -42,6 +42,25 @@ CHECKS.update({
         ref="DESIGN.md section 6 C06"),
 })
 
+CHECKS.update({
+    "C12": dict(
+        technique="exhaustive exact TLC evaluation of the four limiters (Limiters.tla) on a rational grid + TLC-judged region "
+                  "logic on exact float-comparison tokens measured on the real xnum limiters over 300 decades",
+        text="Limiters.tla transcribes the limiters in exact rationals and states the second-order TVD region clauses; TLC "
+             "enumerates the whole grid (every sign combination, zeros, equal arguments); the real functions are evaluated on the "
+             "grid scaled over 1e-150..1e150, random pairs and arrays, and TLC judges zero/sign/bounds/symmetry/oddness/"
+             "homogeneity tokens.",
+        ref="DESIGN.md section 6 C12"),
+    "C20": dict(
+        technique="exhaustive TLC check of mesh partition / 2D connectivity axioms (Mesh.tla) + TLC-judged integer boundary "
+                  "tables against the incidence observed from the real 2D reconstruction, exact tokens for 1D constructors",
+        text="Mesh.tla gives the uniform/refined face formulas and the 2D numbering (cells row-wise, i-faces then j-faces, four "
+             "boundary tables) with the partition axioms as invariants for all small sizes; real constructors are judged on "
+             "face counts, monotonicity, span, midpoints, volume sums, zone ratios, and the 2D tables/orientations/normals against "
+             "the face-cell incidence observed from extrapol2d1 on cell-index data.",
+        ref="DESIGN.md section 6 C20"),
+})
+
 NOT_YET = "check not built yet in this round (work in progress; see DESIGN.md section 6 for the planned TLA+ model and binding)"
 NOT_APPLICABLE = {
     "C04": "asymptotic convergence order against irrational exact solutions over mesh sequences: no finite-state exact-arithmetic "
